@@ -4,7 +4,6 @@ from .brokergen import *
 
 HARNESS = "broker"
 CONST_GROUPS = ["security", "message", "cipher", "license"]
-READY = False
 TIMEOUT = 3600
 RULE = ("one case = one session against a real in-process broker (1-4 clients over net.Pipe; emitter or mqtt matcher; license "
         "v1/v2/v3): connect, subscribe / unsubscribe (several filters per connection whose levels are permutations or "
